@@ -24,7 +24,8 @@ SimNext ==
                                THEN \E k \in {RandomElement(1..(IF Len(queue) < MaxTree - Len(tree) THEN Len(queue) ELSE MaxTree - Len(tree)))},
                                        r \in {RandomElement(Rems)} : Sequence(k, r)
                                ELSE GetSTH
-          [] kind \in 12..13 -> GetSTH
+          [] kind = 12 -> IF rootTs.tick < now THEN \E r \in {RandomElement(Rems)} : Resign(r) ELSE GetSTH
+          [] kind = 13 -> GetSTH
           [] kind = 14 -> \E f \in {RandomElement(Sizes)}, s \in {RandomElement(Sizes)} : GetConsistency(f, s)
           [] kind = 15 -> \E s \in {RandomElement(0..Size)} : \E f \in {RandomElement(0..s)} : GetConsistency(f, s)
           [] kind = 16 -> \E c \in {RandomElement(Certs)} :
